@@ -9,6 +9,7 @@ import Proofs.StreamFind
 import Proofs.StreamSeq
 import Proofs.StreamDap4
 import Proofs.StreamClient
+import Proofs.StreamFuel
 namespace Pydap.C09
 open Pydap Pydap.Stream
 
@@ -186,6 +187,19 @@ example : unpackSeqLenient [.fixed 4, .str] [0x5a, 0, 0, 0, 0, 0, 0, 1, 0, 0, 0,
 example : unpackSeqLenient [.fixed 4, .str] [0x5a, 0, 0, 0, 0, 0, 0, 1, 0, 0, 0, 2, 97]
     = .ok ([[[0, 0, 0, 1], [97]]], []) := by decide
 
+/-- **Every body the marker loop accepts is prefix-free** — canonical wire form or not, with or without
+    bytes left over: cut anywhere and read through `BytesReader` or through `StreamReader` over any chunking,
+    it yields the same rows or raises. -/
+theorem C09_seq_prefix_free (cols : List Col) (b : Bytes) (rows : List Row) (rest : Bytes)
+    (h : unpackSeqBytes cols b = .ok (rows, rest)) :
+    (∀ p, p <+: b → (∃ rest', unpackSeqBytes cols p = .ok (rows, rest')) ∨ unpackSeqBytes cols p = .error .eof) ∧
+    (∀ cs : List Bytes, cs.flatten <+: b →
+      (∃ rest', absSR (unpackSeqStream cols ⟨cs, []⟩) = .ok (rows, rest')) ∨
+      absSR (unpackSeqStream cols ⟨cs, []⟩) = .error .eof) := by
+  refine ⟨fun p hp => unpackSeqBytes_prefix cols b p rows rest h hp, fun cs hp => ?_⟩
+  rw [unpackSeqStream_eq_bytes]
+  exact unpackSeqBytes_prefix cols b _ rows rest h hp
+
 /-! ## 5. DAP4 -/
 
 /-- **`stream2bytearray` reassembles any chunking of a payload** (chunks of any size below 2^24, empty
@@ -222,5 +236,26 @@ example : stream2bytearray [4, 0, 0, 2, 7, 8] = .error .eof := by decide        
 example : stream2bytearray [4, 0, 0, 2, 7, 8, 5, 0] = .error .eof := by decide    -- cut inside a header
 example : unpackFrame (encFrame 4 [60, 62] [[1, 2, 3, 4], [5, 6, 7, 8]]) = .ok ([60, 62], [1, 2, 3, 4, 5, 6, 7, 8]) := by
   decide
+
+/-! ## 6. The model's loops are adequate -/
+
+/-- `Err.fuel` is an artefact of writing Python's `while` loops by recursion on a counter.  With the fuel the
+    entry points pass (`length + 1`: every turn consumes a 4-byte marker or chunk header) it never occurs,
+    on any input, for any reader. -/
+theorem C09_fuel_adequate (cols : List Col) (data : Bytes) (r : SR) :
+    unpackSeqBytes cols data ≠ .error .fuel ∧ absSR (unpackSeqStream cols r) ≠ .error .fuel ∧
+    stream2bytearray data ≠ .error .fuel :=
+  ⟨unpackSeqBytes_noFuel cols data, unpackSeqStream_noFuel cols r, stream2bytearray_noFuel data⟩
+
+/-- After the repair `stream2bytearray` is itself a decoder that only reads (4-byte header, then the chunk),
+    on *every* input … -/
+theorem C09_dap4_reads_only (data : Bytes) :
+    stream2bytearray data = fstOf ((dechunkDec (data.length + 1) []).runBR data) :=
+  stream2bytearray_eq_dec data
+
+/-- … so every chunked stream it accepts (well-formed or not, trailing bytes or not) is prefix-free. -/
+theorem C09_dap4_prefix_free (b p buf : Bytes) (h : stream2bytearray b = .ok buf) (hp : p <+: b) :
+    stream2bytearray p = .ok buf ∨ stream2bytearray p = .error .eof :=
+  stream2bytearray_prefix_any b p buf h hp
 
 end Pydap.C09
